@@ -156,3 +156,14 @@ fn stream_read_exact() {
 fn stream_write_upto() {
     ops::stream_write::<M>()
 }
+
+#[kani::proof]
+#[kani::unwind(10)]
+fn array_u16_copy_to_volatile_slice() {
+    ops::array_copy_to_volatile_slice::<M, u16>()
+}
+#[kani::proof]
+#[kani::unwind(10)]
+fn array_u64_copy_to_volatile_slice() {
+    ops::array_copy_to_volatile_slice::<M, u64>()
+}
